@@ -101,21 +101,19 @@ def _one(args):
     # suggested display strings -> token types, by lexing them with the dialect's own lexer
     if pm and pm.get('sugg'):
         lx = dialect_classes(D)[0]()
-        types, odd = [], []
+        types, disp = [], []
         for s in pm['sugg']:
             if s in ('[identifier]', '[number]', '[string]'):
                 continue
             try:
                 tt = [t.type for t in lx.tokenize(s)]
             except Exception:   # noqa
-                tt = []
-            if len(tt) == 1:
-                types.append(tt[0])
-            else:
-                odd.append(s)
+                tt = ['<unlexable>']
+            types.append(tt or ['<empty>'])
+            disp.append(s)
         out['trace']['sugg'] = types
         out['sugg_disp'] = pm['sugg']
-        out['sugg_odd'] = odd
+        out['sugg_judged'] = disp
     return out
 
 
@@ -211,20 +209,21 @@ def run(ctx):
         if x['pm'].get('kind') == 'syntax' or x['pm'].get('kind') == 'eof':
             if v is None:
                 continue
-            if x.get('sugg_odd'):
-                ctx.note('suggestion that is not a single token: %r for %r' % (x['sugg_odd'], x['sql'][:60]))
             if x['trace'].get('sugg'):
                 n_sugg_checked += len(x['trace']['sugg'])
-                for t in v[2]:
+                for j in v[2]:
+                    t = x['sugg_judged'][j - 1]
                     nd = len(x.get('sugg_disp') or [])
-                    if nd == 1:
+                    if len(x['trace']['sugg'][j - 1]) != 1:
+                        sig = 'suggestion-not-acceptable:text-is-not-one-keyword:%s' % t
+                    elif nd == 1:
                         sig = 'suggestion-not-acceptable:single-candidate-unverified'
                     elif x['pm']['kind'] == 'eof':
                         sig = 'suggestion-not-acceptable:end-of-input-candidates-unfiltered'
                     else:
                         sig = 'suggestion-not-acceptable:verified-candidate:%s' % t
                     ctx.violation(sig,
-                                  'suggested token %s cannot be shifted at the error position (neither inserting it '
+                                  'the suggested text %r cannot be shifted at the error position (neither inserting it '
                                   'nor substituting it lets the parser proceed)' % t,
                                   {'sql': x['sql'], 'msg': x['msg'], 'token': t})
     ctx.cov['traces_validated_against_impl'] += sum(1 for v in verd if v is not None) + len(mver)
